@@ -101,6 +101,7 @@ enum WCmd {
 }
 
 struct EpH {
+    sock_addr: String,
     conn_task: Option<JoinHandle<()>>,
     conn_kind: &'static str,
     rd_tx: UnboundedSender<RCmd>,
@@ -510,6 +511,7 @@ impl World {
                     ev!(tracer, "ret", "ep": &*epn, "op": kind, "res": "ok",
                         "local": local.to_string(), "remote": stream.remote_addr().to_string(),
                         "lr": format!("{}|{}", local, stream.remote_addr()),
+                        "rl": format!("{}|{}", stream.remote_addr(), local),
                         "cid": stream.verif_cid(), "incoming": to.is_none());
                     start_workers(stream, to.is_none(), local, ctx.clone(), rd_rx, wr_rx, ar, aw, seed);
                 }
@@ -523,6 +525,7 @@ impl World {
         self.eps.insert(
             ep.to_string(),
             EpH {
+                sock_addr: local.to_string(),
                 conn_task: Some(task),
                 conn_kind: kind,
                 rd_tx,
@@ -627,7 +630,7 @@ impl World {
                 if let Some(t) = e.conn_task.take() {
                     if !t.is_finished() {
                         t.abort();
-                        ev!(self.tracer, "ret", "ep": ep, "op": e.conn_kind, "res": "abandoned");
+                        ev!(self.tracer, "ret", "ep": ep, "op": e.conn_kind, "res": "abandoned", "sock": e.sock_addr.clone());
                         e.shared.dec(e.conn_kind);
                     }
                 }
